@@ -61,3 +61,43 @@ Proof.
 Qed.
 
 Print Assumptions C04_framing_of_every_encoded_packet.
+
+(* ---------- framing at stream level (proofs/Stream.v) ----------
+   The receive loop a user writes around the length probe: split_stream cuts a byte stream by asking get_length for
+   the length of the next packet (fuel = an upper bound on the number of packets).  A message is (source, destination,
+   message type, body); pkt m is the packet every encoder writes for it (Spec.spec_packet); sendable = it fits the
+   SMBus frame.  For ANY number of packets: the loop returns exactly the packets that were sent, the cut points are
+   forced, every piece has PEC zero, non-control pieces decode to their messages, and a stream that is cut off in the
+   middle of a packet or does not carry the SMBus command code is refused. *)
+Require Import Stream.
+Theorem C04_stream_splits_into_the_packets_sent : forall msgs k,
+  Forall sendable msgs -> (length msgs <= k)%nat ->
+  split_stream k (concat (map pkt msgs)) = Some (map pkt msgs).
+Proof. exact split_concat_fuel. Qed.
+Theorem C04_stream_cut_points_are_forced : forall msgs k l,
+  Forall sendable msgs -> split_stream k (concat (map pkt msgs)) = Some l -> l = map pkt msgs.
+Proof. exact split_concat_unique_cut_any. Qed.
+Theorem C04_stream_pieces_have_zero_pec : forall msgs k l,
+  Forall sendable msgs -> split_stream k (concat (map pkt msgs)) = Some l ->
+  Forall (fun piece => pec_good piece = true /\ pec piece = 0) l.
+Proof. exact stream_every_piece_has_good_pec. Qed.
+Theorem C04_stream_pieces_decode : forall msgs k l,
+  Forall sendable msgs -> Forall non_control msgs -> split_stream k (concat (map pkt msgs)) = Some l ->
+  Forall2 (fun m piece =>
+             decode_packet piece = ok (msg_type_from_u8 (m_type m), (9%nat, length (m_body m))) /\
+             sub piece 9 (length (m_body m)) = m_body m) msgs l.
+Proof. exact stream_decodes. Qed.
+Theorem C04_stream_truncated_is_refused : forall fuel msgs m k,
+  Forall sendable msgs -> sendable m -> (1 <= k < length (pkt m))%nat ->
+  split_stream fuel (concat (map pkt msgs) ++ firstn k (pkt m)) = None.
+Proof. exact split_concat_truncated_stops. Qed.
+Theorem C04_stream_without_command_code_is_refused : forall f s,
+  bytes_ok s -> (3 <= length s)%nat -> nth 1 s 0 <> 15 -> split_stream f s = None.
+Proof. exact split_garbage_stops_any. Qed.
+
+Print Assumptions C04_stream_splits_into_the_packets_sent.
+Print Assumptions C04_stream_cut_points_are_forced.
+Print Assumptions C04_stream_pieces_have_zero_pec.
+Print Assumptions C04_stream_pieces_decode.
+Print Assumptions C04_stream_truncated_is_refused.
+Print Assumptions C04_stream_without_command_code_is_refused.
